@@ -1,3 +1,541 @@
 #!/usr/bin/env python3
+"""Runner for the model-based verification of futures-concurrency.
+
+  check.py --setup                       build the harness (3 feature configs), parse all specs
+  check.py Cxx [--tier quick|thorough]   decide property Cxx (exit 0 / 1 + VIOLATION line / 2 tool error)
+  check.py --replay <file>               re-run one saved replay and print the monitor's verdict
+
+Pipeline per property (DESIGN.md sections 2, 5, 6):
+  1. rebuild the Rust harness against /repo's current working tree (std, alloc, no_std);
+  2. TLC: model-check the implementation-shaped (L2) specifications of the property's
+     families with the property monitors as invariants; export behaviours as vectors;
+  3. replay the exported vectors and seeded random vectors on the real code (all configs);
+  4. TLC (TraceMon.tla): fold every recorded trace through the TLA+ monitors  -> verdict;
+     TLC (Trace_<Family>.tla): check that the recorded trace is a behaviour of L2 -> drift;
+  5. write evidence/<id>.json.
+"""
+import argparse
+import concurrent.futures as cf
+import hashlib
+import json
+import os
+import re
+import shutil
+import subprocess
 import sys
-print("under construction"); sys.exit(0)
+import time
+
+ROOT = os.path.dirname(os.path.dirname(os.path.abspath(__file__)))
+HARN = os.path.join(ROOT, "harness")
+SPECS = os.path.join(ROOT, "specs")
+WORK = os.path.join(ROOT, "work")
+REPLAYS = os.path.join(ROOT, "replays")
+EVID = os.path.join(ROOT, "evidence")
+KNOWN = os.path.join(ROOT, "known_findings.txt")
+TLA_CP = "/opt/veriftools/tla/tla2tools.jar:/opt/veriftools/tla/CommunityModules-deps.jar"
+CONFIGS = ["std", "alloc", "none"]
+NCPU = os.cpu_count() or 4
+
+sys.path.insert(0, os.path.dirname(os.path.abspath(__file__)))
+
+
+class ToolError(Exception):
+    pass
+
+
+def log(*a):
+    print(*a, file=sys.stderr, flush=True)
+
+
+# --------------------------------------------------------------------------- build
+def cargo_cmd(cfg):
+    cmd = ["cargo", "build", "--offline", "--quiet", "--target-dir", os.path.join(HARN, "target", cfg)]
+    if cfg == "alloc":
+        cmd += ["--no-default-features", "--features", "alloc"]
+    elif cfg == "none":
+        cmd += ["--no-default-features"]
+    return cmd
+
+
+def fcv(cfg):
+    return os.path.join(HARN, "target", cfg, "debug", "fcv")
+
+
+def build(configs):
+    env = dict(os.environ, CARGO_NET_OFFLINE="true")
+
+    def one(cfg):
+        t0 = time.time()
+        p = subprocess.run(cargo_cmd(cfg), cwd=HARN, env=env, capture_output=True, text=True)
+        return cfg, p.returncode, p.stderr[-4000:], time.time() - t0
+
+    with cf.ThreadPoolExecutor(max_workers=len(configs)) as ex:
+        res = list(ex.map(one, configs))
+    for cfg, rc, err, dt in res:
+        if rc != 0:
+            raise ToolError("cargo build (%s) failed:\n%s" % (cfg, err))
+        log("built harness [%s] in %.1fs" % (cfg, dt))
+
+
+# --------------------------------------------------------------------------- TLC
+def tlc(module, cfgfile, metadir, env_extra=None, workers=1, xmx="3g", extra=None, timeout=3600, deque=True):
+    env = dict(os.environ)
+    jto = "-Xss1g"
+    if deque:
+        jto += " -Dtlc2.tool.queue.IStateQueue=StateDeque"
+    env["JAVA_TOOL_OPTIONS"] = jto
+    if env_extra:
+        env.update(env_extra)
+    gc = "-XX:+UseSerialGC" if workers == 1 else "-XX:+UseParallelGC"
+    cmd = ["java", gc, "-Xmx" + xmx, "-cp", TLA_CP, "tlc2.TLC", "-workers", str(workers),
+           "-metadir", metadir, "-cleanup", "-noGenerateSpecTE", "-config", cfgfile]
+    if extra:
+        cmd += extra
+    cmd.append(module)
+    try:
+        p = subprocess.run(cmd, cwd=SPECS, env=env, capture_output=True, text=True, timeout=timeout)
+    except subprocess.TimeoutExpired:
+        raise ToolError("TLC timed out on %s" % module)
+    finally:
+        shutil.rmtree(metadir, ignore_errors=True)
+    return p.returncode, p.stdout + p.stderr
+
+
+def unq(line):
+    """TLC prints PrintT("X {json}") as a quoted TLA+ string: undo the quoting."""
+    line = line.strip()
+    if line.startswith('"') and line.endswith('"'):
+        line = line[1:-1].replace('\\"', '"').replace("\\\\", "\\")
+    return line
+
+
+def tracemon(trace_path, tag):
+    """Fold one ndjson trace file through the TLA+ monitors. Returns (viols, runs, stats)."""
+    rc, out = tlc(os.path.join(SPECS, "TraceMon.tla"), os.path.join(SPECS, "TraceMon.cfg"),
+                  os.path.join(WORK, "meta_" + tag), env_extra={"TRACE": trace_path})
+    viols, runs, stats = [], {}, None
+    for line in out.splitlines():
+        if line.startswith('"VIOL ') or line.startswith('"RUN ') or line.startswith('"STATS '):
+            s = unq(line)
+            kind, js = s.split(" ", 1)
+            try:
+                d = json.loads(js)
+            except Exception:
+                raise ToolError("cannot parse TraceMon output line: %s" % line[:300])
+            if kind == "VIOL":
+                viols.append(d)
+            elif kind == "RUN":
+                runs[d["id"]] = d["armed"]
+            else:
+                stats = d
+    if "Model checking completed. No error has been found." not in out or stats is None:
+        # an empty trace file is fine
+        if os.path.getsize(trace_path) == 0:
+            return [], {}, {"events": 0, "runs": 0, "armed": {}}
+        raise ToolError("TraceMon failed on %s:\n%s" % (trace_path, out[-3000:]))
+    return viols, runs, stats
+
+
+# --------------------------------------------------------------------------- plans
+ARR_ALL = [0, 1, 2, 3, 4, 5, 6, 8, 12, 23, 65]
+VEC_Q = [0, 1, 2, 3, 5, 23, 65]
+VEC_T = [0, 1, 2, 3, 4, 5, 8, 22, 23, 24, 63, 64, 65, 128, 200]
+
+
+def conts(fam, tier, lo):
+    """(cont, n) pairs for a family; lo = smallest n for which the family/property is defined."""
+    q = tier == "quick"
+    arr = [n for n in ([0, 1, 2, 3, 5] if q else ARR_ALL) if n >= lo]
+    tup_lo = {"join": 0, "try_join": 0, "merge": 0}.get(fam, 1)
+    tup = [n for n in ([0, 1, 2, 3, 4, 12] if q else list(range(0, 13))) if n >= max(lo, tup_lo)]
+    vec = [n for n in (VEC_Q if q else VEC_T) if n >= lo]
+    out = [("arr", n) for n in arr] + [("tup", n) for n in tup] + [("vec", n) for n in vec]
+    if fam in ("join", "race", "merge", "zip", "chain"):
+        out.append(("ext", 2))
+    return out
+
+
+FAM_LO = {"join": 0, "try_join": 0, "race": 1, "race_ok": 0, "merge": 0, "zip": 1, "chain": 0}
+GROUP_SPECS = [("future_group", "plain", 0), ("future_group", "keyed", 0), ("future_group", "keyed", 3),
+               ("stream_group", "plain", 0), ("stream_group", "keyed", 0), ("stream_group", "plain", 2)]
+CO_SPECS = [("co", "co", 0), ("co", "co", 1), ("co", "co", 3), ("co", "co", 6), ("co", "vec", 0), ("co", "vec", 2), ("co", "vec", 5)]
+WAIT_SPECS = [("wait_until", "x", 2), ("wait_until_stream", "x", 2)]
+
+
+def fam_specs(fams, tier):
+    out = []
+    for f in fams:
+        if f in FAM_LO:
+            out += [(f, c, n) for (c, n) in conts(f, tier, FAM_LO[f])]
+        elif f == "future_group":
+            out += [s for s in GROUP_SPECS if s[0] == "future_group"]
+        elif f == "stream_group":
+            out += [s for s in GROUP_SPECS if s[0] == "stream_group"]
+        elif f == "co":
+            out += CO_SPECS
+        elif f == "wait_until":
+            out += WAIT_SPECS
+        elif f == "nest":
+            out += [("nest_join_join", "x", 3), ("nest_join_merge", "x", 3), ("nest_merge_groups", "x", 3),
+                    ("nest_group_join", "x", 3), ("nest_race_join", "x", 3), ("nest_chain_merge", "x", 3)]
+    return out
+
+
+ALL_FAMS = ["join", "try_join", "race", "race_ok", "merge", "zip", "chain", "future_group", "stream_group", "wait_until", "co", "nest"]
+CONC_FAMS = ["join", "try_join", "race", "race_ok", "merge", "zip", "future_group", "stream_group"]
+SUB_FAMS = ["join", "try_join", "merge", "zip", "future_group", "stream_group"]
+
+# per property: families, profiles (with relative weights), configs, base count per (spec, profile, config)
+PLAN = {
+    "C01": dict(fams=ALL_FAMS, profiles=["mixed", "wakeonly", "never"], configs=CONFIGS, count=(14, 150)),
+    "C02": dict(fams=ALL_FAMS, profiles=["mixed", "drop", "panic"], configs=CONFIGS, count=(14, 150)),
+    "C03": dict(fams=ALL_FAMS, profiles=["mixed", "wakeonly"], configs=CONFIGS, count=(18, 200)),
+    "C20": dict(fams=CONC_FAMS, profiles=["never", "mixed"], configs=CONFIGS, count=(25, 250)),
+    "C04": dict(fams=["join"], profiles=["mixed", "wakeonly"], configs=CONFIGS, count=(120, 1500)),
+    "C05": dict(fams=["try_join"], profiles=["mixed", "wakeonly", "allerr"], configs=CONFIGS, count=(100, 1200)),
+    "C06": dict(fams=["race"], profiles=["mixed", "wakeonly"], configs=CONFIGS, count=(130, 1500)),
+    "C07": dict(fams=["race_ok"], profiles=["mixed", "wakeonly", "allerr"], configs=CONFIGS, count=(100, 1200)),
+    "C08": dict(fams=["merge"], profiles=["mixed", "wakeonly"], configs=CONFIGS, count=(110, 1500)),
+    "C09": dict(fams=["zip"], profiles=["mixed", "wakeonly"], configs=CONFIGS, count=(130, 1500)),
+    "C10": dict(fams=["chain"], profiles=["mixed", "wakeonly"], configs=CONFIGS, count=(120, 1500)),
+    "C11": dict(fams=["future_group"], profiles=["mixed", "ops"], configs=["std", "alloc"], count=(1300, 12000)),
+    "C12": dict(fams=["stream_group"], profiles=["mixed", "ops"], configs=["std", "alloc"], count=(1100, 10000)),
+    "C13": dict(fams=["co"], profiles=["for_each"], configs=["std", "alloc"], count=(900, 9000)),
+    "C14": dict(fams=["co"], profiles=["try"], configs=["std", "alloc"], count=(900, 9000)),
+    "C15": dict(fams=["co"], profiles=["collect", "mixed"], configs=["std", "alloc"], count=(600, 6000)),
+    "C16": dict(fams=SUB_FAMS, profiles=["mixed", "wakeonly"], configs=["std"], count=(60, 700)),
+    "C17": dict(fams=["merge"], profiles=["fair"], configs=CONFIGS, count=(120, 1500)),
+    "C19": dict(fams=["wait_until"], profiles=["mixed", "wakeonly"], configs=CONFIGS, count=(1500, 15000)),
+}
+
+# which monitor obligations make a run non-trivial for a property (any of these armed)
+NONTRIVIAL = {
+    "C01": ["C01.parked_wake", "C01.midpoll_wake_at_pending", "C01.wake_mid_poll", "C01.stale_waker", "quiesce.parked"],
+    "C02": ["C02.drop_midflight", "C02.unreturned_values"],
+    "C03": ["C01.wake_finished_child", "C01.stale_waker", "C01.repoll_after_wake", "C03.repoll_after_final"],
+    "C20": ["C20.never", "C20.pending_multi"],
+    "C04": ["C04.ret.pending"], "C05": ["C05.ret.pending", "C05.ret.ready.err"], "C06": ["C06.ret.pending"],
+    "C07": ["C07.ret.pending", "C07.ret.ready.err"], "C08": ["C08.ret.some", "C08.ret.pending"],
+    "C09": ["C09.buffered", "C09.ret.pending"], "C10": ["C10.ret.pending", "C10.ret.some"],
+    "C11": ["group.slot_reuse", "group.remove_live", "group.refill_after_none", "C11.ret.pending"],
+    "C12": ["group.slot_reuse", "group.remove_live", "group.refill_after_none", "C12.ret.pending"],
+    "C13": ["C13.at_limit", "C13.ret.pending"], "C14": ["C14.ret.ready.err", "C14.ret.pending"],
+    "C15": ["C15.enumerate", "C15.take", "C15.map"],
+    "C16": ["C16.repoll", "C16.selective"], "C17": ["C17.yield"],
+    "C19": ["C19.before_deadline"],
+}
+
+
+def supported(cfg, fam, cont):
+    if cfg == "none":
+        if cont in ("vec",) or fam in ("future_group", "stream_group", "co") or fam.startswith("nest"):
+            return False
+    return True
+
+
+# --------------------------------------------------------------------------- known findings
+def load_known():
+    known = []
+    if os.path.exists(KNOWN):
+        for line in open(KNOWN):
+            line = line.strip()
+            if line.startswith("known:"):
+                m = re.match(r"known:\s+property=(C\d+)\s+match=(\S+)\s+(.*)", line)
+                if m:
+                    known.append(dict(prop=m.group(1), match=m.group(2), what=m.group(3)))
+    return known
+
+
+def is_known(known, prop, vid, reason):
+    for k in known:
+        if k["prop"] == prop and re.search(k["match"], vid + " " + reason):
+            return k
+    return None
+
+
+# --------------------------------------------------------------------------- main check
+def split_runs(trace_path):
+    """yield (id, [lines]) per run of a concatenated trace file."""
+    cur_id, cur = None, []
+    with open(trace_path) as f:
+        for line in f:
+            if line.startswith('{"e":"new"'):
+                if cur_id is not None:
+                    yield cur_id, cur
+                try:
+                    cur_id = json.loads(line)["id"]
+                except Exception:
+                    cur_id = "?"
+                cur = [line]
+            else:
+                cur.append(line)
+    if cur_id is not None:
+        yield cur_id, cur
+
+
+def run_harness_random(cfg, specs, profile, count, seed, tag):
+    trace = os.path.join(WORK, "trace_%s.ndjson" % tag)
+    vecs = os.path.join(WORK, "vec_%s.ndjson" % tag)
+    spec = ",".join("%s:%s:%d" % s for s in specs)
+    if not spec:
+        open(trace, "w").close()
+        open(vecs, "w").close()
+        return trace, vecs
+    p = subprocess.run([fcv(cfg), "random", "--spec", spec, "--count", str(count), "--seed", str(seed),
+                        "--profile", profile, "--out", trace, "--vec-out", vecs],
+                       capture_output=True, text=True, timeout=3600)
+    if p.returncode != 0:
+        # a crash of the process (abort, stack overflow, UB) is data about the code under test,
+        # attributed to the last vector whose `new` line was written
+        log("harness [%s] exited with %d: %s" % (cfg, p.returncode, p.stderr[-500:]))
+        return trace, vecs, p.returncode
+    return trace, vecs
+
+
+def run_harness_vectors(cfg, vecfile, tag):
+    trace = os.path.join(WORK, "trace_%s.ndjson" % tag)
+    p = subprocess.run([fcv(cfg), "run", "--vectors", vecfile, "--out", trace], capture_output=True, text=True, timeout=3600)
+    if p.returncode != 0:
+        raise ToolError("harness run failed: %s" % p.stderr[-2000:])
+    return trace
+
+
+def find_vector(vecfile, vid):
+    with open(vecfile) as f:
+        for line in f:
+            if ('"id":"%s"' % vid) in line:
+                return json.loads(line)
+    return None
+
+
+def save_replay(prop, cfg, vector, viols, lines):
+    os.makedirs(REPLAYS, exist_ok=True)
+    h = hashlib.sha1((cfg + json.dumps(vector, sort_keys=True)).encode()).hexdigest()[:12]
+    path = os.path.join(REPLAYS, "%s-%s.json" % (prop, h))
+    with open(path, "w") as f:
+        json.dump(dict(property=prop, feat=cfg, vector=vector, violations=viols, trace=[l.strip() for l in lines][:400]), f, indent=1)
+    return path
+
+
+def check(prop, tier, seed):
+    t0 = time.time()
+    if prop not in PLAN:
+        raise ToolError("no check for %s" % prop)
+    plan = PLAN[prop]
+    os.makedirs(WORK, exist_ok=True)
+    os.makedirs(EVID, exist_ok=True)
+    configs = plan["configs"]
+    build(configs)
+
+    import l2  # L2 model checking / export / conformance (tools/l2.py)
+    l2res = l2.run_for_property(prop, tier, seed, plan, dict(tlc=tlc, fcv=fcv, WORK=WORK, SPECS=SPECS, log=log, ToolError=ToolError,
+                                                                tracemon=tracemon, split_runs=split_runs))
+
+    count = plan["count"][0 if tier == "quick" else 1]
+    specs = fam_specs(plan["fams"], tier)
+    jobs = []
+    for cfg in configs:
+        sp = [s for s in specs if supported(cfg, s[0], s[1])]
+        for pi, profile in enumerate(plan["profiles"]):
+            # shard the spec list so that every TLC process gets a similar amount of work
+            nshards = max(1, min(4 if tier == "quick" else 8, len(sp)))
+            for sh in range(nshards):
+                part = sp[sh::nshards]
+                tag = "%s_%s_%s_%d" % (prop, cfg, profile, sh)
+                jobs.append((cfg, part, profile, count, seed * 1000 + pi * 17 + sh, tag))
+
+    def do(job):
+        cfg, part, profile, cnt, sd, tag = job
+        r = run_harness_random(cfg, part, profile, cnt, sd, tag)
+        crashed = len(r) == 3
+        trace, vecs = r[0], r[1]
+        viols, runs, stats = tracemon(trace, tag)
+        return job, trace, vecs, viols, runs, stats, crashed
+
+    results = []
+    with cf.ThreadPoolExecutor(max_workers=max(2, NCPU - 2)) as ex:
+        for r in ex.map(do, jobs):
+            results.append(r)
+
+    known = load_known()
+    total_runs = 0
+    total_events = 0
+    armed_tot = {}
+    distinct_nontrivial = set()
+    distinct_all = set()
+    samples = []
+    violations = []      # (cfg, id, reasons, vecfile, trace)
+    known_hits = []
+    other_props = {}
+    crashed_any = []
+    want = set(NONTRIVIAL.get(prop, []))
+    for job, trace, vecs, viols, runs, stats, crashed in results + l2res.get("mon_results", []):
+        cfg = job[0]
+        total_runs += stats["runs"]
+        total_events += stats["events"]
+        for k, v in stats["armed"].items():
+            armed_tot[k] = armed_tot.get(k, 0) + v
+        if crashed:
+            crashed_any.append((cfg, trace))
+        byid = {}
+        for v in viols:
+            for b in v["bad"]:
+                p = b[0]
+                if p == prop:
+                    byid.setdefault(v["id"], []).append(b[1])
+                else:
+                    other_props[p] = other_props.get(p, 0) + 1
+        for rid, lines in split_runs(trace):
+            h = hashlib.sha1("".join(lines[1:]).encode() + lines[0].split('"fam"')[1].encode()).hexdigest()
+            distinct_all.add(h)
+            if want & set(runs.get(rid, [])):
+                distinct_nontrivial.add(h)
+                if len(samples) < 3 and len(lines) < 80:
+                    samples.append(dict(id=rid, config=cfg, trace=[json.loads(l) for l in lines]))
+            if rid in byid:
+                violations.append((cfg, rid, byid[rid], vecs, lines))
+
+    # H00 = harness protocol errors: the machinery itself is wrong
+    if other_props.get("H00"):
+        raise ToolError("harness protocol violations (H00) seen: the machinery is inconsistent")
+
+    out_lines = []
+    nviol = 0
+    seen_replays = set()
+    for cfg, rid, reasons, vecs, lines in violations:
+        reason_s = json.dumps(reasons)
+        k = is_known(known, prop, rid, reason_s)
+        if k:
+            known_hits.append((k, rid))
+            continue
+        vec = find_vector(vecs, rid) if vecs else None
+        path = save_replay(prop, cfg, vec or {"id": rid}, reasons, lines)
+        nviol += 1
+        if path not in seen_replays and len(seen_replays) < 8:
+            seen_replays.add(path)
+            out_lines.append("VIOLATION property=%s replay=%s" % (prop, path))
+            log("  %s [%s]: %s" % (rid, cfg, reason_s[:300]))
+    for (cfg, trace) in crashed_any:
+        # process-level crash of the code under test
+        path = os.path.join(REPLAYS, "%s-crash-%s.txt" % (prop, cfg))
+        os.makedirs(REPLAYS, exist_ok=True)
+        shutil.copy(trace, path)
+        nviol += 1
+        out_lines.append("VIOLATION property=%s replay=%s" % (prop, path))
+    for p, v in l2res.get("violations", []):
+        nviol += 1
+        out_lines.append("VIOLATION property=%s replay=%s" % (p, v))
+
+    printed_known = set()
+    for k, rid in known_hits:
+        if k["what"] not in printed_known:
+            printed_known.add(k["what"])
+            print("KNOWN-FINDING: property=%s %s" % (prop, k["what"]))
+
+    # vacuity guard: the property's obligations must have been exercised
+    if not distinct_nontrivial:
+        raise ToolError("vacuity: no run exercised %s's obligations %s" % (prop, sorted(want)))
+
+    if not samples:
+        for job, trace, vecs, viols, runs, stats, crashed in results[:1]:
+            for rid, lines in split_runs(trace):
+                samples.append(dict(id=rid, trace=[json.loads(l) for l in lines][:60]))
+                break
+    wall = time.time() - t0
+    ev = dict(
+        property_id=prop, tier=tier, seed=seed, level="model_checking",
+        coverage=dict(
+            states=max(1, l2res.get("states", 0)), transitions=max(1, l2res.get("transitions", 0)),
+            exhaustive=bool(l2res.get("exhaustive", False)),
+            l2_models=l2res.get("models", []),
+            traces_validated_against_impl=total_runs,
+            l2_vectors_replayed=l2res.get("replayed", 0),
+            l2_conformance=l2res.get("conformance", {}),
+            drift=l2res.get("drift", []),
+            events_monitored=total_events,
+            evaluations=total_runs,
+            distinct_traces=len(distinct_all),
+            distinct_nontrivial=len(distinct_nontrivial),
+            rule="a case is one recorded execution of the real code (a vector: per-child scripts + caller commands, replayed "
+                 "from a TLC-exported L2 behaviour or drawn by the seeded generator); distinct = different event sequence; "
+                 "non-trivial = the TLA+ monitor armed at least one of %s in it" % sorted(want),
+            obligations_armed={k: v for k, v in sorted(armed_tot.items())},
+            configs=configs, families=plan["fams"], profiles=plan["profiles"],
+            samples=samples,
+            other_property_violations_seen=other_props,
+        ),
+        assumptions=[
+            "TLC results are exhaustive only within the constants of each L2 config (see l2_models)",
+            "third-party crates (futures-buffered, slab, fixedbitset, smallvec) are exercised for real but specified only abstractly",
+            "executor model: polls first, after the latest parent waker was invoked, right after an item, after a group operation (DESIGN.md 9)",
+            "the harness never polls after a final result",
+        ],
+        wall_s=round(wall, 2), violations=nviol,
+    )
+    with open(os.path.join(EVID, "%s.json" % prop), "w") as f:
+        json.dump(ev, f, indent=1)
+    for l in out_lines:
+        print(l)
+    print("%s %s: %d real executions (%d distinct, %d non-trivial), %d events monitored, L2 states %d, violations %d, %.1fs"
+          % (prop, tier, total_runs, len(distinct_all), len(distinct_nontrivial), total_events, l2res.get("states", 0), nviol, wall))
+    return 1 if nviol else 0
+
+
+def replay(path):
+    d = json.load(open(path))
+    cfg = d.get("feat", "std")
+    build([cfg])
+    os.makedirs(WORK, exist_ok=True)
+    vf = os.path.join(WORK, "replay_vec.ndjson")
+    with open(vf, "w") as f:
+        f.write(json.dumps(d["vector"]) + "\n")
+    trace = run_harness_vectors(cfg, vf, "replay")
+    sys.stdout.write(open(trace).read())
+    viols, runs, stats = tracemon(trace, "replay")
+    bad = [b for v in viols for b in v["bad"]]
+    for b in bad:
+        print("MONITOR %s: %s" % (b[0], json.dumps(b[1])))
+    prop = d.get("property")
+    if any(b[0] == prop for b in bad):
+        print("VIOLATION property=%s replay=%s" % (prop, path))
+        return 1
+    print("no violation of %s in this replay" % prop)
+    return 0
+
+
+def setup():
+    os.makedirs(WORK, exist_ok=True)
+    build(CONFIGS)
+    mods = [f for f in sorted(os.listdir(SPECS)) if f.endswith(".tla")]
+    for mname in mods:
+        p = subprocess.run(["java", "-cp", TLA_CP, "tla2sany.SANY", mname], cwd=SPECS, capture_output=True, text=True)
+        if p.returncode != 0 or "Semantic errors" in p.stdout or "Parse Error" in p.stdout or "Fatal" in p.stdout:
+            raise ToolError("SANY failed on %s:\n%s" % (mname, p.stdout[-2000:]))
+    log("parsed %d TLA+ modules" % len(mods))
+    return 0
+
+
+def main():
+    ap = argparse.ArgumentParser()
+    ap.add_argument("prop", nargs="?")
+    ap.add_argument("--tier", default=os.environ.get("VERIF_TIER", "quick"))
+    ap.add_argument("--setup", action="store_true")
+    ap.add_argument("--replay")
+    a = ap.parse_args()
+    seed = int(os.environ.get("VERIF_SEED", "1"))
+    try:
+        if a.setup:
+            sys.exit(setup())
+        if a.replay:
+            sys.exit(replay(a.replay))
+        if not a.prop:
+            ap.error("property id required")
+        tier = a.tier if a.tier in ("quick", "thorough") else "quick"
+        sys.exit(check(a.prop, tier, seed))
+    except ToolError as e:
+        print("TOOL-ERROR: %s" % e)
+        sys.exit(2)
+
+
+if __name__ == "__main__":
+    main()
